@@ -14,7 +14,7 @@ from .ctx import CTX, OutOfSubset, PathEnd
 from .sym import (SInt, SBool, SStr, SRef, SBV, SReal, PyRaise, mk_int, mk_bool, mk_str, _zint, _zbool, zstr,
                   is_sym, ite)
 from .values import (Opaque, AbstractSeq, OneShotIter, EnumMember, FuncVal, BoundMethod, PropertyVal, HostFn, HostModule, ClassVal, VObj,
-                     RangeVal, IterVal, VDict, VSet, VList)
+                     RangeVal, IterVal, VDict, VSet, VList, GhostVal, kind_of_value, _elem_wrap, _elem_unwrap)
 
 ITERABLE = HostFn(lambda: None, "collections.abc.Iterable")
 SEQUENCE = HostFn(lambda: None, "collections.abc.Sequence")
@@ -46,12 +46,31 @@ def py_isinstance(interp, v, T):
         raise OutOfSubset("isinstance on an opaque value (%s)" % v.label)
     if isinstance(v, SRef):
         # opaque element references: the harness states which classes they are instances of
+        cb = CTX.ghost.get("sref_isinstance")
+        if cb is not None:
+            T2 = getattr(T, "pytype", None) or T
+            if isinstance(T2, ClassVal):
+                names = {T2.name}
+                # every modelled subclass of T2 counts as well
+                return cb(v, T2)
+            return False
         classes = CTX.ghost.get("sref_classes")
         if classes is None:
             raise OutOfSubset("isinstance on an opaque reference")
         T2 = getattr(T, "pytype", None) or T
         if isinstance(T2, ClassVal):
             return any(c.name in classes for c in [T2]) or any(n in classes and T2 in _mro_by_name(interp, T2, n) for n in ())
+        return False
+    if isinstance(v, GhostVal):
+        py = {"list": list, "set": set, "dict": dict, "tuple": tuple}.get(v.pv_pytype)
+        if T in (ITERABLE,):
+            return py is not None
+        if T is SEQUENCE:
+            return py in (list, tuple)
+        if T is object:
+            return True
+        if isinstance(T, type):
+            return py is not None and issubclass(py, T)
         return False
     if T is int:
         return isinstance(v, (int, SInt, SBool, SBV))
@@ -96,6 +115,8 @@ def _mro_by_name(interp, T, n):
 
 
 def _len(interp, v):
+    if isinstance(v, GhostVal):
+        return v.pv_len()
     if isinstance(v, VList):
         return v.len()
     if isinstance(v, (tuple, str)):
@@ -243,10 +264,46 @@ def _tuple(interp, args, kwargs):
     return tuple(items)
 
 
+def pointwise(interp, n, elem_at, fn):
+    """list of length n (z3 int term, >= 0) whose k-th element is fn(elem_at(k)): fn is evaluated once
+    for an arbitrary in-range k (local assumption; a data-dependent branch inside is outside the subset);
+    the element must be int-, ref- or str-valued."""
+    if CTX.mode != "sym":
+        raise OutOfSubset("pointwise list in concrete mode")
+    k = z3.Int(CTX.fresh_name("pk"))
+    n = z3.simplify(z3.If(n > 0, n, 0))
+    CTX.push_scope(z3.And(k >= 0, k < n))
+    try:
+        if CTX.solver.check() == z3.unsat:
+            return VList([])
+        v = fn(elem_at(mk_int(k)))
+    finally:
+        CTX.pop_scope()
+    kind = kind_of_value(v)
+    if isinstance(v, (bool, SBool)) or (kind == "ref" and not isinstance(v, SRef)):
+        r = VList([])
+        r.havoc("ref")
+        CTX.assume(r.length == n)
+        return r
+    return VList(None, n, z3.Lambda([k], _elem_unwrap(kind, v)), kind)
+
+
 def _map(interp, args, kwargs):
     f = args[0]
     seqs = [interp.iterate(a) for a in args[1:]]
     if any(s is None for s in seqs):
+        src = args[1]
+        if isinstance(src, OneShotIter):
+            src = src.take()
+        if len(args) == 2 and isinstance(src, VList) and not src.is_concrete():
+            frozen = src.snapshot()
+            r = pointwise(interp, frozen.length, lambda k: _elem_wrap(frozen.kind, z3.Select(frozen.arr, k.t)),
+                          lambda x: interp.call(f, [x], {}))
+            return OneShotIter(r)
+        if len(args) == 2 and isinstance(src, GhostVal):
+            n = _zint(src.pv_len())
+            r = pointwise(interp, n, lambda k: src.pv_getitem(k), lambda x: interp.call(f, [x], {}))
+            return OneShotIter(r)
         raise OutOfSubset("map over symbolic-length iterable")
     return IterVal([interp.call(f, list(xs), {}) for xs in zip(*seqs)])
 
@@ -673,6 +730,8 @@ def host_getattr(interp, v, name):
         if name == "__init__":
             return HostFn(lambda i, a, k: None, "object.__init__", raw=True)
         raise PyRaise(AttributeError("super object has no attribute %r" % name))
+    if isinstance(v, GhostVal):
+        return v.pv_getattr(name)
     if isinstance(v, VList):
         return _list_method(interp, v, name)
     if isinstance(v, (str, SStr)):
@@ -898,6 +957,14 @@ def _str_method(interp, s, name):
     def join(i, a, k):
         items = i.iterate(a[0])
         if items is None:
+            src = a[0].take() if isinstance(a[0], OneShotIter) else a[0]
+            if isinstance(src, VList) and not src.is_concrete() and src.kind == "str" and isinstance(s, str):
+                # join of a symbolic-length list of strings: an uninterpreted function of the separator and
+                # the list; the harness reads the list from the event
+                snap = src.snapshot()
+                fn = z3.Function("py_join_%s" % "".join("%02x" % ord(c) for c in s), z3.ArraySort(I, S), I, S)
+                CTX.event("join", sep=s, items=snap)
+                return SStr(fn(snap.arr, snap.length))
             raise OutOfSubset("join over symbolic-length iterable")
         out = ""
         for j, x in enumerate(items):
@@ -916,11 +983,22 @@ def _str_method(interp, s, name):
     def split(i, a, k):
         if isinstance(s, str) and all(isinstance(x, (str, int)) for x in a):
             return VList(s.split(*a))
+        h = CTX.ghost.get("str_split")
+        if h is not None:
+            # instance of the contract of str.split supplied (and justified) by the harness
+            r = h(s, list(a))
+            if r is not None:
+                return r
         raise OutOfSubset("split on symbolic string")
 
     def strip(i, a, k):
         if isinstance(s, str):
             return s.strip(*a)
+        h = CTX.ghost.get("str_strip")
+        if h is not None:
+            r = h(s, list(a))
+            if r is not None:
+                return r
         raise OutOfSubset("strip on symbolic string")
 
     def encode(i, a, k):
